@@ -93,9 +93,24 @@ open Model.Determinism in
 def opC10Exceptions (_ : Json) : Except String Json :=
   pure (Json.mkObj [("names", jarr (exceptionNames.map Json.str))])
 
+open Model.Determinism in
+def opC10Scopes (j : Json) : Except String Json := do
+  let opt ← getStrL j "opt"
+  pure (Json.mkObj [("r", jarr ((oauthScopes c10IsSpace opt).map jstr))])
+
+open Model.Determinism in
+def opC10Subpackages (j : Json) : Except String Json := do
+  let view ← c10StrList j "view"
+  let subs ← (← getArrL j "subs").mapM fun v => do
+    (← v.getArr?).toList.mapM fun x => do pure (← x.getStr?).toList
+  let names := subpackageNames view subs
+  pure (Json.mkObj [("r", jarr ((subpackageOrder (dedup names)).map jstr)),
+                    ("outcomes", if (dedup names).length ≤ 6 then
+                        jarr ((outcomes subpackageOrder (dedup names)).map fun o => jarr (o.map jstr)) else Json.null)])
+
 def opsC10 : List (String × (Json → Except String Json)) :=
   [("c10.sort_lines", opC10SortLines), ("c10.sort_by_key", opC10SortByKey), ("c10.resources", opC10Resources),
    ("c10.disambiguate", opC10Disambiguate), ("c10.query_params", opC10QueryParams),
-   ("c10.import_block", opC10ImportBlock), ("c10.colliding", opC10Colliding), ("c10.exceptions", opC10Exceptions)]
+   ("c10.import_block", opC10ImportBlock), ("c10.scopes", opC10Scopes), ("c10.subpackages", opC10Subpackages), ("c10.colliding", opC10Colliding), ("c10.exceptions", opC10Exceptions)]
 
 end GapicModel.Driver
